@@ -11,6 +11,7 @@ CONSTANTS
   MaxTx = 1
   WithTry = TRUE
   WithNoRS = TRUE
+  WithCb = TRUE
 INVARIANTS ImplAgrees Coherent
 
 CHECK_DEADLOCK FALSE
